@@ -25,13 +25,27 @@ type unit struct {
 	blk  int
 	line int // index within the block
 	h    float64
+	// Vertical box decorations that travel with the unit (box-decoration-break: slice).  css-break-3
+	// §4.2 has no break point between the top padding/border of a box and its first child or line,
+	// nor between its last child or line and its bottom padding/border (class C break points need a
+	// gap between the content edge and the child, and auto heights leave none): pre is the top
+	// decoration of every box that starts with this unit (enclosing box first, then the block), post
+	// the bottom decoration of every box that ends with it (the block, then the enclosing box).
+	pre, post float64
+	ownPost   float64 // part of post that belongs to the block itself
+	boxPost   float64 // part of post that belongs to the enclosing box
 }
+
+// tot is the space the unit takes on a page, decorations included.
+func (u unit) tot() float64 { return u.pre + u.h + u.post }
 
 type flow struct {
 	blocks []block
 	units  []unit
 	rtl    bool
 	exact  bool // every unit height and page height is an integer number of px
+	// some unit carries a top or bottom decoration
+	decorated bool
 }
 
 func buildFlow(in *In) *flow {
@@ -55,7 +69,24 @@ func buildFlow(in *In) *flow {
 			}
 		}
 		for j := 0; j < b.n; j++ {
-			f.units = append(f.units, unit{blk: len(f.blocks), line: j, h: b.h})
+			u := unit{blk: len(f.blocks), line: j, h: b.h}
+			if j == 0 {
+				if parent != nil && first {
+					u.pre += float64(parent.topDeco())
+				}
+				u.pre += float64(it.topDeco())
+			}
+			if j == b.n-1 {
+				u.ownPost = float64(it.bottomDeco())
+				if parent != nil && last {
+					u.boxPost = float64(parent.bottomDeco())
+				}
+				u.post = u.ownPost + u.boxPost
+			}
+			if u.pre+u.post > 0 {
+				f.decorated = true
+			}
+			f.units = append(f.units, u)
 		}
 		f.blocks = append(f.blocks, b)
 	}
@@ -253,6 +284,53 @@ type pageVerdict struct {
 	looseOK        bool // accepted only under the box-based reading of orphans
 	kfInsideAvoid  bool
 	firstOverflows bool // the first unit of the page is higher than the page
+	deco           bool // some unit of the page carries a top or bottom decoration
+	decoStraddle   bool // the content of the unit after the last fitting one fits, its bottom decoration does not
+}
+
+// knownOverflow recognises the two overflow patterns of /repo recorded as open findings (see
+// notes/C12.md, "Genuine defects"): the page holds units s..b of total height used > H.
+//   - a fixed-height block whose content fits and whose own bottom padding/border does not is kept
+//     on the page (the second layout with a larger bottomSpace cannot change an empty block);
+//   - a box that is the first thing on its page and whose content fits is never laid out again for
+//     its bottom padding/border (canBreak is false on an empty page), although it has break points
+//     between its children.
+//
+// Both are only recognised when nothing else is wrong: everything but that bottom decoration fits.
+func (f *flow) knownOverflow(s, b int, used, H float64) (sig, why string) {
+	if b == s {
+		return "", ""
+	}
+	ub := f.units[b]
+	blk := &f.blocks[ub.blk]
+	sameBox := blk.parent != nil && blk.lastKid && ub.boxPost > 0
+	if sameBox {
+		for k := s; k <= b; k++ {
+			if f.blocks[f.units[k].blk].parent != blk.parent {
+				sameBox = false
+			}
+		}
+	}
+	leafPost := 0.0
+	if blk.it.Kind == "leaf" {
+		leafPost = ub.ownPost
+	}
+	if sameBox {
+		if fit, sure := f.fits(used-ub.boxPost, H); fit && sure {
+			return "overflow-bottom-decoration-of-first-box", sprintf("known pattern: box %s is the first box of the page, its content fits and its bottom padding/border (%g px) does not", blk.parent.ID, ub.boxPost)
+		}
+		if leafPost > 0 {
+			if fit, sure := f.fits(used-ub.boxPost-leafPost, H); fit && sure {
+				return "overflow-bottom-decoration-of-first-box", sprintf("known pattern: box %s is the first box of the page, its content fits without the bottom padding/border of its last fixed-height child %s (%g px) and its own (%g px)", blk.parent.ID, blk.it.ID, leafPost, ub.boxPost)
+			}
+		}
+	}
+	if leafPost > 0 {
+		if fit, sure := f.fits(used-leafPost, H); fit && sure {
+			return "overflow-bottom-decoration-of-fixed-height-block", sprintf("known pattern: the content of the fixed-height block %s fits, its own bottom padding/border (%g px) does not", blk.it.ID, leafPost)
+		}
+	}
+	return "", ""
 }
 
 // fits decides whether content of total height sum fits a page of content height H.  When every
@@ -279,9 +357,9 @@ func (f *flow) checkPageEnd(s, b int, H float64) pageVerdict {
 	// e: last unit that surely fits, eMax: last unit that may fit (the first unit of a page is
 	// placed even when it does not fit)
 	e, eMax := s, s
-	sum := f.units[s].h
+	sum := f.units[s].tot()
 	for k := s + 1; k < n; k++ {
-		sum += f.units[k].h
+		sum += f.units[k].tot()
 		fit, sure := f.fits(sum, H)
 		if fit && sure && e == k-1 {
 			e = k
@@ -289,10 +367,17 @@ func (f *flow) checkPageEnd(s, b int, H float64) pageVerdict {
 		if fit || !sure {
 			eMax = k
 		} else {
+			// the unit after the last fitting one: does its content fit, its bottom decoration
+			// (own, or of the box it closes) being the only part below the page bottom?
+			if e == k-1 && f.units[k].post > 0 {
+				if fit2, sure2 := f.fits(sum-f.units[k].post, H); fit2 && sure2 {
+					v.decoStraddle = true
+				}
+			}
 			break
 		}
 	}
-	if fit, sure := f.fits(f.units[s].h, H); !fit && sure {
+	if fit, sure := f.fits(f.units[s].tot(), H); !fit && sure {
 		v.firstOverflows = true
 	}
 	kf := -1
@@ -301,6 +386,9 @@ func (f *flow) checkPageEnd(s, b int, H float64) pageVerdict {
 			kf = k
 			break
 		}
+	}
+	if kf >= 0 && kf <= e {
+		v.decoStraddle = false // the forced break comes first
 	}
 	hi, hiMax := e, eMax
 	if kf >= 0 && kf < hi {
@@ -312,7 +400,10 @@ func (f *flow) checkPageEnd(s, b int, H float64) pageVerdict {
 	v.hi, v.e = hi, e
 	used := 0.0
 	for k := s; k <= b && k < n; k++ {
-		used += f.units[k].h
+		used += f.units[k].tot()
+		if f.units[k].pre+f.units[k].post > 0 {
+			v.deco = true
+		}
 	}
 	v.exactFit = f.exact && used == H
 	if b > hiMax {
@@ -321,7 +412,11 @@ func (f *flow) checkPageEnd(s, b int, H float64) pageVerdict {
 			v.msg = sprintf("page starting at unit %d continues to unit %d although a forced break follows unit %d", s, b, kf)
 		} else {
 			v.sig = "overflow"
-			v.msg = sprintf("page of content height %g starting at unit %d holds units up to %d (total height %g) although only units up to %d fit and a break is possible after each of them", H, s, b, used, eMax)
+			v.msg = sprintf("page of content height %g starting at unit %d holds units up to %d (total height %g, vertical padding and borders included) although only units up to %d fit and a break is possible after each of them", H, s, b, used, eMax)
+			if sig, why := f.knownOverflow(s, b, used, H); sig != "" {
+				v.sig = sig
+				v.msg += "; " + why
+			}
 		}
 		return v
 	}
